@@ -703,6 +703,46 @@ for c in CONNECTORS:
     if r:
         chk.violation(f'udp.reverse->{c}', 'receive-error-became-a-datagram', f'reverse -> {c}: after the client port was closed the origin received {len(r)} datagram(s) nobody sent: {[x[:16] for x in r]}', {'connector': c})
 
+# ---- a SOCKS5 UDP datagram whose FRAG byte is not zero is a piece of a datagram, not a datagram: a relay that does not
+#      reassemble must drop it (RFC 1928) - forwarded as it is, the destination would get a datagram nobody sent
+def run_frag(c):
+    p, ap, rud = hopA[c]
+    ctrl, r = socks5_connect(ap['socks'], '0.0.0.0', 0, cmd=3, timeout=5)
+    if r['rep'] != 0 or len(r['reply']) < 10:
+        return 'association-refused'
+    relay = ('127.0.0.1', struct.unpack('>H', r['reply'][8:10])[0])
+    u = socket.socket(socket.AF_INET, socket.SOCK_DGRAM)
+    u.bind(('127.0.0.1', 0))
+    try:
+        first = tagged(40, f'frag-first-{c}')
+        u.sendto(b'\0\0\0' + socks5_addr('127.0.0.1', origin.port) + first, relay)
+        time.sleep(0.2)
+        pieces = []
+        for frag in (1, 2, 0x81, 0xff):
+            piece = tagged(40, f'frag-{frag}-{c}')
+            pieces.append(piece)
+            u.sendto(b'\0\0' + bytes([frag]) + socks5_addr('127.0.0.1', origin.port) + piece, relay)
+        time.sleep(0.1)
+        last = tagged(40, f'frag-last-{c}')
+        try:
+            u.sendto(b'\0\0\0' + socks5_addr('127.0.0.1', origin.port) + last, relay)
+        except OSError:
+            pass
+        time.sleep(0.5)
+        return {'pieces_delivered': [p_[:30] for p_ in pieces if origin.count(p_) > 0], 'first': origin.count(first), 'last': origin.count(last)}
+    finally:
+        u.close(); ctrl.close()
+for c in CONNECTORS:
+    evals += 1
+    r = run_frag(c)
+    distinct.add(('frag', c, str(r)[:40]))
+    if not isinstance(r, dict) or r['first'] != 1:
+        continue    # the path does not work at all for this cell: judged elsewhere
+    if r['pieces_delivered']:
+        chk.violation(f'udp.socks5->{c}', 'fragment-forwarded-as-datagram', f'socks5 -> {c}: datagrams with FRAG != 0 were delivered to the destination as complete datagrams: {r["pieces_delivered"]}', {'connector': c, 'result': {k: str(v) for k, v in r.items()}})
+    elif r['last'] != 1:
+        chk.violation(f'udp.socks5->{c}', 'datagram-lost:after-a-fragment', f'socks5 -> {c}: the whole datagram sent after the fragments was delivered {r["last"]} times', {'connector': c})
+
 origin2.stop()
 for p, _, _ in hopA.values():
     if not p.alive():
